@@ -127,4 +127,10 @@ CHECKS = {
   'note': 'Trusted: Coq kernel + vm_compute; serde, serde_derive, serde_json are modelled, not verified; UTF-8 encoding outside the model; Python variant writer; harness.',
   'technique': 'Rocq proof (printer/parser round trip of the modelled layout) + byte-for-byte differential against serde_json',
  },
+ 'C17': {
+  'text': 'Coq theorem C17_size_independent: the transcribed minimizer (whose `as StateGroupIDBase` conversions are modelled as mod 2^group_bits) preserves the accepted token types for every automaton with fewer than 2^state_id_bits states, from C03_minimize_preserves_N and the obligation C17_group_width_ok : state_id_bits <= group_id_bits; the widths and the list of every integer cast site of scnr/src are REGENERATED from the source on every run (Gen/Ids.v; C17_casts_ok fails when a cast site appears or changes), so narrowing an id type or adding a truncating cast re-opens a proof obligation; C17_wrap_miscompiles shows the width hypothesis is necessary. When an obligation breaks the check searches a failing input with the real size run (13 200 distinct five-letter keywords, 66 001 states, release build). Tie otherwise: scaled pattern sets (hundreds to thousands of states) against an automaton-independent longest-match oracle, recorded minimizer pairs against the model, and in the thorough tier the real >2^16-state keyword and repetition sets.',
+  'design_ref': 'DESIGN.md section 7, C17',
+  'note': 'Trusted: Coq kernel; the source translator (type aliases, cast sites; table lib/c17_casts.json); harness; number of states < 2^32 is a resource assumption; the Thompson and closure stages are size-independent by inspection of the cast list (and by the generic compile theorems over nat ids).',
+  'technique': 'Rocq proof (minimizer theorem + width/cast obligations regenerated from source) + real-size differential run',
+ },
 }
